@@ -14,6 +14,20 @@ Thorough == Tier = "thorough"
 EnvInt(k, d) == IF k \in DOMAIN IOEnv THEN atoi(IOEnv[k]) ELSE d
 
 (***************************************************************************)
+(* Decimal text of small numbers (as conversion to string, %v and JSON     *)
+(* spell them)                                                             *)
+(***************************************************************************)
+AbsQ(i) == IF i < 0 THEN -i ELSE i
+Digits  == <<"0", "1", "2", "3", "4", "5", "6", "7", "8", "9">>
+RECURSIVE NatDigits(_)
+NatDigits(n) == IF n < 10 THEN <<Digits[n + 1]>> ELSE NatDigits(n \div 10) \o <<Digits[(n % 10) + 1]>>
+IntText(k) == IF k < 0 THEN <<"-">> \o NatDigits(-k) ELSE NatDigits(k)
+\* shortest decimal text of a quarter-lattice number of magnitude < 10^6 (as %v and JSON write it)
+QText(q) == LET m == AbsQ(q) fr == m % 4 IN
+  (IF q < 0 THEN <<"-">> ELSE <<>>) \o NatDigits(m \div 4)
+  \o (CASE fr = 0 -> <<>> [] fr = 1 -> <<".", "2", "5">> [] fr = 2 -> <<".", "5">> [] fr = 3 -> <<".", "7", "5">>)
+
+(***************************************************************************)
 (* Leaves                                                                  *)
 (***************************************************************************)
 QS  == IF Thorough THEN {-8, -4, -2, -1, 0, 1, 2, 4, 6, 8, 12} ELSE {-4, 0, 2, 4, 8}
